@@ -249,6 +249,12 @@ def make_scenarios(ck, behs, quick, rng):
                 a["gate"], a["sleep"] = 0, 20000
             else:
                 a["gate"], a["sleep"] = 1, -1
+        if not has_sig and a["wait"] == 1 and a["q"] == 0 and not a.get("bq"):
+            # every third remaining stop/exit scenario runs with a LONG timestamp-ordering grace period (100 ms): what was logged
+            # right before the stop/exit is still too young to be read when the exit drain starts - the drain must wait for it
+            nn["g"] = nn.get("g", 0) + 1
+            if nn["g"] % 3 == 0:
+                a["q"] = 5
         toks = []
         for op, t, x in steps:
             if op in "LSPF":
@@ -533,7 +539,8 @@ def signature(s, o, whys):
         return signature(dict(s, attrs=a2), o, whys) + ":bounded-queue"
     if s["attrs"].get("q") and op in ("stopret", "end"):
         a2 = dict(s["attrs"], q=0)
-        return signature(dict(s, attrs=a2), o, whys) + ":queue-" + ("grown" if s["attrs"]["q"] == 1 else "shrunk")
+        return signature(dict(s, attrs=a2), o, whys) + (":long-grace-period" if s["attrs"]["q"] == 5 else
+                                                         ":queue-" + ("grown" if s["attrs"]["q"] == 1 else "shrunk"))
     if op == "start":
         n = sum(1 for e in o["events"] if e["e"] == "StartRet")
         return "start:not-running:%s" % ("first" if n <= 1 else "restart")
